@@ -9,9 +9,10 @@ import InToto.Proofs.Sublayout
 import InToto.Proofs.PipeThresholds
 import InToto.Proofs.PipeSigs
 import InToto.Generated.Facts
+import InToto.Proofs.Pipeline
 
 namespace InToto.C08
-open InToto InToto.Json InToto.Schema InToto.Metadata InToto.Verify InToto.SubProofs
+open InToto InToto.Json InToto.Schema InToto.Metadata InToto.Verify InToto.SubProofs InToto.PipelineProofs
 
 /-- "verified like a root layout … and the parent then sees it as a link carrying the summary":
     if the stage succeeds, every counted piece of evidence that is a layout was verified by the
@@ -93,5 +94,37 @@ theorem depth_positive (d : Dir) : 0 < d.depth := by
 
 /-- fact regenerated from the source on every run: the sublayout directory format -/
 theorem facts_sublayout_dir_format : Generated.constSublayoutLinkDirFormat = lit% "%s.%.8s" := by decide
+
+/-- C08 AT PIPELINE LEVEL: whenever one level accepts, every counted piece of evidence that is itself
+    a layout was ACCEPTED by the same procedure one level down — with the key the parent defines
+    for that functionary, against `<step>.<key id prefix>` below the parent's link directory, under
+    the step's name and with no parameters -/
+theorem acceptance_implies_sublayouts_accepted (W : World) (ln : Bool) (ci : List Str) (fuel : Nat) (md : Md)
+    (keys : List (Str × Key)) (dir : Dir) (sn : Str) (params : List (Str × Str)) (rd : RunDirState) (acc : Acc)
+    (s : Summary) (h : (verifyAux W ln ci (fuel + 1) md keys dir sn params rd acc).out = .ok s) :
+    ∃ lay ver, Admitted W ci md keys params rd lay ∧ countedStage W lay dir = .ok ver ∧
+      ∀ st links, (st, links) ∈ ver → ∀ kid m, (kid, m) ∈ links → ∀ l, m.payload = .layout l →
+        ∃ a s', (verifyAux W ln ci fuel m (subKeysOf lay kid) (dir.sub (st.name ++ '.' :: first8 kid)) st.name [] .none a).out = .ok s' :=
+  accept_implies_sublayouts_accepted W ln ci fuel md keys dir sn params rd acc s h
+
+/-- C08 ("carrying the sublayout's first-step materials and last-step products"): the summary an
+    accepting level returns is `summaryOf`: the materials of its first step's agreed link and the
+    products of its last step's -/
+theorem summary_is_first_materials_last_products (W : World) (ln : Bool) (ci : List Str) (fuel : Nat) (md : Md)
+    (keys : List (Str × Key)) (dir : Dir) (sn : Str) (params : List (Str × Str)) (rd : RunDirState) (acc : Acc)
+    (s : Summary) (h : (verifyAux W ln ci (fuel + 1) md keys dir sn params rd acc).out = .ok s) :
+    ∃ lay res red, reduceAll res = .ok red ∧ s = summaryOf (layoutSteps lay) red sn := by
+  obtain ⟨lay, ver, res, acc1, _, _, _, hf⟩ := (verifyAux_ok_iff W ln ci fuel md keys dir sn params rd acc s).1 h
+  obtain ⟨_, red, _, hred, _, _, _, hs⟩ := (finishStage_ok_iff W rd sn lay res acc1 s).1 hf
+  exact ⟨lay, res, red, hred, hs⟩
+
+/-- the model's recursion bound is an artefact: any two amounts of fuel above the nesting depth of
+    the link directory give the same result, so `verify` (which starts with depth + 1) behaves
+    like the unbounded recursion of the implementation -/
+theorem recursion_bound_is_irrelevant (W : World) (ln : Bool) (ci : List Str) (f₁ f₂ : Nat) (md : Md)
+    (keys : List (Str × Key)) (dir : Dir) (sn : Str) (params : List (Str × Str)) (rd : RunDirState) (acc : Acc)
+    (h₁ : dir.depth < f₁) (h₂ : dir.depth < f₂) :
+    verifyAux W ln ci f₁ md keys dir sn params rd acc = verifyAux W ln ci f₂ md keys dir sn params rd acc :=
+  verifyAux_fuel_irrelevant W ln ci f₁ f₂ md keys dir sn params rd acc h₁ h₂
 
 end InToto.C08
